@@ -146,8 +146,10 @@ func c04Run(sc *scenario, b *behaviour) (string, string, interface{}) {
 			return r.settledLocked(func() int { return returnedN }, r.callDeliveriesLocked)
 		})
 	}
-	if !r.w.waitFor(tBound, func() bool { return r.settledLocked(nil, nil) }) {
-		hlib.Fatal("set-up does not settle: %s", r.dump())
+	if !r.w.waitFor(3*tBound, func() bool { return r.settledLocked(nil, nil) }) {
+		// ordinary calls (authenticate, metaObject) were made and returned, yet a frame is still on its way
+		// after three times the bound: a message of the set-up got lost or was answered to nobody
+		return "c04/no-outcome", "set-up does not settle: " + r.dump(), map[string]interface{}{"steps": "set-up (authenticate, metaObject)"}
 	}
 	// baselines: ids used so far, frames seen so far, deliveries so far
 	r.w.mu.Lock()
